@@ -1,7 +1,7 @@
 (* C20 — distributed work ranges partition the index range exactly.
    Only statements, closed by [exact]; proofs are in Proofs/C20.v, the model in Model/C20.v. *)
 From Coq Require Import ZArith List Bool.
-From QV Require Import Model.C20 Proofs.C20.
+From QV Require Import Model.C20 Proofs.C20 Model.C20regions Proofs.C20regions.
 Import ListNotations.
 Open Scope Z_scope.
 
@@ -101,6 +101,31 @@ Theorem c20_variants_agree_at_zero : forall size stop r,
   range_of FromZero size 0 stop r = range_of FromStart size 0 stop r.
 Proof. exact fromzero_ok_at_zero. Qed.
 Print Assumptions c20_variants_agree_at_zero.
+
+(* parallel regions: any well-nested sequence of start/finish_parallel_region never raises and moves level and
+   region counter with the nesting depth; a balanced block restores the configuration exactly *)
+Theorem c20_regions_track_nesting_depth : forall ops (sh : bool) s d,
+  nested d ops = true -> 0 <= d -> (if sh then d else 0) <= r_level s ->
+  r_raised sh s ops = false /\
+  r_run sh s ops = mkR (r_level s + (if sh then depth_after d ops - d else 0)) (r_region s + (depth_after d ops - d)).
+Proof. exact nested_tracks_depth. Qed.
+Print Assumptions c20_regions_track_nesting_depth.
+
+Theorem c20_balanced_regions_restore : forall ops (sh : bool) s d,
+  nested d ops = true -> depth_after d ops = d -> 0 <= d -> (if sh then d else 0) <= r_level s ->
+  r_raised sh s ops = false /\ r_run sh s ops = s.
+Proof. exact balanced_restores. Qed.
+Print Assumptions c20_balanced_regions_restore.
+
+(* so the helpers hand out the partition exactly at nesting depth 1 - also after nested regions were opened and closed -
+   and the whole range at every other depth *)
+Theorem c20_partition_exactly_at_depth_one : forall ops g0 size start stop, nested 0 ops = true -> 1 <= size -> start <= stop ->
+  let level := r_level (r_run true (mkR 0 g0) ops) in
+  (depth_after 0 ops = 1 ->
+     flat_map (fun r => api_block level FromStart size start stop (Z.of_nat r)) (seq 0 (Z.to_nat size)) = zrange start stop) /\
+  (depth_after 0 ops <> 1 -> forall r, api_block level FromStart size start stop r = zrange start stop).
+Proof. exact regions_and_blocks. Qed.
+Print Assumptions c20_partition_exactly_at_depth_one.
 
 (* non-vacuity: a concrete non-trivial instance *)
 Example c20_example : ranges FromStart 3 5 12 = [(5,7); (7,10); (10,12)].
